@@ -65,8 +65,13 @@ fn install() {
                 let location = info
                     .location()
                     .map(|l| {
+                        // path relative to the pallas workspace root, wherever the
+                        // tree is checked out (/repo, or a scratch copy)
                         let f = l.file();
-                        let f = f.strip_prefix("/repo/").unwrap_or(f);
+                        let f = match f.find("/pallas-") {
+                            Some(i) if !f.contains("/.cargo/") => &f[i + 1..],
+                            _ => f.strip_prefix("/repo/").unwrap_or(f),
+                        };
                         format!("{}:{}", f, l.line())
                     })
                     .unwrap_or_else(|| "<unknown>".into());
